@@ -109,8 +109,8 @@ func newClient(p proxySpec, delta bool, suffix string) *envoyclient.Client {
 // servers
 
 type server struct {
-	f   *vh.F
-	srv *xdsfake.FakeDiscoveryServer
+	f      *vh.F
+	srv    *xdsfake.FakeDiscoveryServer
 	gen    *genStats
 	pushes *pushLog
 }
@@ -617,7 +617,7 @@ func runC01(c *vh.Ctx) { runHistories(c, true, false) }
 func runC03(c *vh.Ctx) { runHistories(c, false, true) }
 
 func runHistories(c *vh.Ctx, c01, c03 bool) {
-	n := c.N(48, 600)
+	n := c.N(72, 600)
 	for i := 0; i < n; i++ {
 		if !c.Mine(i) {
 			continue
@@ -653,6 +653,13 @@ func runHistories(c *vh.Ctx, c01, c03 bool) {
 				}
 				c.Count("batches", 1)
 				c.Count("ops", len(b))
+				for _, cl := range w.sotw {
+					for n := range cl.Snapshot()[envoyclient.CDS] {
+						if parts := strings.Split(n, "|"); len(parts) == 4 && parts[2] != "" {
+							c.Count("subset_clusters_held_observations", 1)
+						}
+					}
+				}
 				c.SetAdd("batch_sizes", fmt.Sprint(len(b)))
 				for _, o := range b {
 					c.SetAdd("op_kinds", o.Verb+" "+o.Kind.Kind)
